@@ -1905,6 +1905,43 @@ class PictureNumberChangedMidFragmentedPicture(ConformanceError):
         )
 
 
+class FragmentedPictureMissingInitialFragment(ConformanceError):
+    """
+    (14.2) A fragment containing picture slices (i.e. with
+    fragment_slice_count != 0) must be preceded, in the same sequence, by a
+    fragment with fragment_slice_count == 0 which starts the fragmented
+    picture.
+
+    The (byte_offset, next_bit_offset) offset of the offending fragment's
+    header is included as an argument along with the number of slices it
+    contains.
+    """
+
+    def __init__(self, this_fragment_offset, fragment_slice_count):
+        self.this_fragment_offset = this_fragment_offset
+        self.fragment_slice_count = fragment_slice_count
+        super(FragmentedPictureMissingInitialFragment, self).__init__()
+
+    def explain(self):
+        return """
+            A picture fragment containing picture slices was encountered
+            before any fragment with fragment_slice_count=0 in the sequence
+            (14.2).
+
+            The fragment at bit offset {} contains {} picture slice{} but no
+            fragmented picture has been started in the current sequence. A
+            fragmented picture must begin with a fragment with
+            fragment_slice_count=0 (containing the transform parameters).
+        """.format(
+            to_bit_offset(*self.this_fragment_offset),
+            self.fragment_slice_count,
+            "s" if self.fragment_slice_count != 1 else "",
+        )
+
+    def offending_offset(self):
+        return to_bit_offset(*self.this_fragment_offset)
+
+
 class TooManySlicesInFragmentedPicture(ConformanceError):
     """
     (14.2) A fragmented picture must not contain more slices than necessary.
